@@ -73,6 +73,22 @@ def run(ctx):
             fb = Transfer(**dict(copy.deepcopy(cfg), z=2.6)).power
             if not np.allclose(b, fb, rtol=1e-12):
                 viol("growth-scaling/update-sequence", f"after power at z=1.3 then update(z=2.6) the power differs from a fresh object's by {float(np.max(np.abs(b / fb - 1))):.3g}", {"config": str(cfg)})
+        # the frameworks that inherit from Transfer (warm dark matter) obey the same scaling across redshifts: separate objects at z and at 0
+        try:
+            from hmf.alternatives.wdm import TransferWDM, MassFunctionWDM
+            for cls_, kw_ in ((TransferWDM, {}), (MassFunctionWDM, dict(Mmin=10.0, Mmax=14.0, dlog10m=0.5)), (TransferWDM, {"wdm_model": "Bode01"})):
+                b_ = dict(transfer_model="EH", lnk_min=-10.0, lnk_max=6.0, dlnk=0.1, wdm_mass=0.5, **kw_)
+                o0 = cls_(z=0.0, **b_)
+                for z_ in (1.0, 4.0):
+                    oz = cls_(z=z_, **b_)
+                    ncase += 1
+                    Dz = oz.growth_factor
+                    if not np.allclose(oz.power, Dz ** 2 * o0.power, rtol=1e-10, atol=0):
+                        viol("growth-scaling/wdm-frameworks", f"{cls_.__name__}{kw_ or ''}: power(z={z_}) differs from growth_factor^2 * power(z=0) by up to {float(np.max(np.abs(oz.power / (Dz ** 2 * o0.power) - 1))):.3g}", {"class": cls_.__name__, "z": z_})
+                    if hasattr(oz, "sigma") and not np.allclose(oz.sigma, Dz * o0.sigma, rtol=1e-10):
+                        viol("sigma-linearity/wdm-frameworks", f"{cls_.__name__}: sigma(m, z={z_}) differs from growth_factor * sigma(m, 0) by up to {float(np.max(np.abs(oz.sigma / (Dz * o0.sigma) - 1))):.3g}", {"class": cls_.__name__, "z": z_})
+        except ImportError:
+            pass
         # value at a wavenumber vs requested range / resolution
         nrange = 0
         for model in ("EH", "BBKS"):
